@@ -169,9 +169,24 @@ Definition hdrs (kk : tkey) (k k' : nat) : list row :=
 Definition addr_scope (zs : bool) (tr : tkey -> bool) (kk : tkey) : bool :=
   (zs || negb (is_zside (key_kind kk))) && ((key_kind kk =? K_ITER) || tr kk).
 
+(* only populate_read / populate_write expectations look at the destination fibers *)
+Lemma expect_at_nz : forall L s kind label zi zf p e, is_zside kind = false ->
+  expect_at L s kind label zi zf p e = expect_at L s kind label [] [] p e.
+Proof.
+  intros L s kind label zi zf p e H. unfold is_zside in H. apply orb_false_iff in H. destruct H as [H1 H2].
+  unfold expect_at. rewrite H1, H2. reflexivity.
+Qed.
+
+(* the populated tensor before and after the whole run: the destination-side expectations
+   (populate_read / populate_write) of a point are taken from its fibers in these two trees *)
+Class ZZ := { zz_in : tree; zz_out : tree }.
+Section WithZZ.
+Context {zz : ZZ}.
+
 Definition expect_rows (i : nat) (lv : list level) (pe : list (list Z * env)) (kk : tkey) : list row :=
   let j := Z.to_nat (key_rank kk) in
-  flat_map (fun q => expect_at (nth (j - i) lv dflt_level) false (key_kind kk) (key_label kk) [] []
+  flat_map (fun q => expect_at (nth (j - i) lv dflt_level) false (key_kind kk) (key_label kk)
+                               (zdesc zz_in (fst q)) (zdesc zz_out (fst q))
                                (fst q) (snd q))
            (space lv (j - i) pe).
 
@@ -463,7 +478,8 @@ Definition loc_ok (zs : bool) (tr : tkey -> bool) (i : nat) (L : level) (pt : li
     let lrows := ltrace (0, None) sk kind label in
     chain (stampR kind) (map (fun x => [fst (fst x)]) lrows) = true
     /\ (addr_scope zs tr (Z.of_nat i, kind, label) = true ->
-        map (fun x => pt ++ [snd (fst x); snd x]) lrows = expect_at L false kind label [] [] pt e).
+        map (fun x => pt ++ [snd (fst x); snd x]) lrows
+        = expect_at L false kind label (zdesc zz_in pt) (zdesc zz_out pt) pt e).
 
 Lemma GL : forall zs tr n i L lv' pt e items fin, length pt = i ->
   Forall (item_ok zs tr n i lv' pt) items -> Forall (local i) fin ->
@@ -556,3 +572,5 @@ Proof.
         rewrite space_S. cbn [nth flat_map]. rewrite app_nil_r, <- Hch. reflexivity.
       * intros Hd. apply O4. cbn [dr flat_map] in Hd. rewrite app_nil_r, <- Hch in Hd. lia.
 Qed.
+
+End WithZZ.
